@@ -123,6 +123,7 @@ def entry_points(h, rec):
         eps.append(("nrpickler.dumps(universe)", "edgegraph.output.nrpickler.dumps", (), lambda g, cb: _len_only(h.call(dumps, g.U))))
     pu = f("edgegraph.output.plantuml.render_to_plantuml_src")
     eps.append(("render_to_plantuml_src", "edgegraph.output.plantuml.render_to_plantuml_src", ("user_render_func",), lambda g, cb: plantuml_call(h, pu, g, cb)))
+    eps.append(("render_to_plantuml_src(title_format='T_{name}')", "edgegraph.output.plantuml.render_to_plantuml_src", (), lambda g, cb: plantuml_call(h, pu, g, cb, "T_{name}")))
     return eps
 
 
@@ -140,18 +141,28 @@ def pyvis_call(h, rec, fn, g, cb):
     return out
 
 
-def plantuml_call(h, fn, g, cb):
-    m = h.w.mods["edgegraph.output.plantuml"]
-    base = m.globals.get("PLANTUML_RENDER_OPTIONS")
-    if not isinstance(base, DictV):
-        raise Unknown("PLANTUML_RENDER_OPTIONS is not a dict")
-    opts = DictV()
-    for k, v in base.pairs:
-        opts.pairs.append([k, DictV(v.pairs) if isinstance(v, DictV) else v])
-    if cb["user_render_func"] is not None:
+def plantuml_call(h, fn, g, cb, title_format=None):
+    """the options table is built once per set of callbacks: a repeated call passes the *same* table, as a caller would"""
+    opts = cb.get("_puml_options")
+    if opts is None:
+        m = h.w.mods["edgegraph.output.plantuml"]
+        base = m.globals.get("PLANTUML_RENDER_OPTIONS")
+        if not isinstance(base, DictV):
+            raise Unknown("PLANTUML_RENDER_OPTIONS is not a dict")
+        opts = DictV()
+        for k, v in base.pairs:
+            opts.pairs.append([k, DictV([[kk, (Seq(list(vv.items), vv.kind) if isinstance(vv, Seq) else vv)] for kk, vv in v.pairs]) if isinstance(v, DictV) else v])
         for k, v in opts.pairs:
             if k is h.cls("Vertex"):
-                v.pairs.append(["user_render_func", cb["user_render_func"]])
+                if cb["user_render_func"] is not None:
+                    v.pairs.append(["user_render_func", cb["user_render_func"]])
+                if title_format is not None:
+                    for p_ in v.pairs:
+                        if p_[0] == "title_format":
+                            p_[1] = title_format
+                        if p_[0] == "show_attrs":
+                            p_[1] = Seq(["name"], "list")
+        cb["_puml_options"] = opts
     return h.call(fn, g.U, opts)
 
 
@@ -163,14 +174,21 @@ GOOD = {
 }
 
 
+ARITY = {"ff_via": 2, "ff_result": 1, "rfunc": 1, "sort": 1, "rvfunc": 1, "refunc": 1, "user_render_func": 2}
+
+
 def mkcbs(names, fault=None, armed=None):
     """`armed`: a one-element list; the fault only fires while armed[0] is true, so the *same* callables can be re-used
     well-behaved for the repeated call."""
     cbs = {n: None for n in GOOD}
     for n in names:
         def script(I, k, a, kw, _n=n):
+            if _n in ARITY and (len(a) != ARITY[_n] or kw):
+                # the callables have the documented signatures: called any other way they fail like a Python function does
+                raise Raised(I.w.B.mkexc("TypeError", f"{_n}() takes {ARITY[_n]} positional argument(s) but {len(a)} were given"))
             if fault is not None and fault[0] == _n and k == fault[1] and (armed is None or armed[0]):
-                raise Raised(I.w.B.mkexc("RuntimeError", f"injected fault in {_n} call {k}"))
+                # the callback's own failure: a RuntimeError at odd invocations, a TypeError at even ones (a callback may fail with any exception)
+                raise Raised(I.w.B.mkexc("TypeError" if k % 2 == 0 else "RuntimeError", f"injected fault in {_n} call {k}"))
             return GOOD[_n](I, k, a, kw)
         cbs[n] = Callback(n, script)
     return cbs
